@@ -77,9 +77,9 @@ def rule_siblings(model):
     b = model.func('DT_HTML', 'HTML.parseTag')
     ra, xa, ta = _decisions(a)
     rb, xb, tb = _decisions(b)
-    extra_ret = 'tag, args, Var, None'
-    ra2 = [x.strip('()') for x in ra if x.strip('()') != extra_ret]
-    rb2 = [x.strip('()') for x in rb]
+    # the EPFS-only insertion form (…, Var, None) has no SGML counterpart
+    ra2 = [x.strip('()') for x in ra if ', Var, ' not in x]
+    rb2 = [x.strip('()') for x in rb if ', Var, ' not in x]
     r.instance(a.where, ' | '.join(ra2), 'returns')
     r.instance(b.where, ' | '.join(rb2), 'returns')
     if sorted(ra2) != sorted(rb2):
@@ -95,7 +95,8 @@ def rule_siblings(model):
     def shared(ts):
         out = []
         for t in ts:
-            if t.startswith('fmt ==') or t == 'end':
+            if 'fmt' in t.split() or t.startswith('fmt ') or t == 'end' \
+                    or t.startswith("fmt=="):
                 continue
             out.append(t)
         return out
@@ -106,7 +107,7 @@ def rule_siblings(model):
                   f'different conditions: {sorted(set(sa) ^ set(sb))}',
                   node=b.node, ctx=b)
     # end-tag recognisers
-    if not any(t.startswith("fmt == ']'") for t in ta):
+    if not any("']'" in t and 'fmt' in t for t in ta):
         r.finding(a.where, "fmt == ']'", 'EPFS end tag not recognised by '
                   "the ']' format", node=a.node, ctx=a)
     if 'end' not in tb:
@@ -260,12 +261,15 @@ def rule_scanner_twins(model):
                    'same way (quote-aware)')
     from ..linear import canon
     sc = model.func('DT_HTML', 'dtml_re_class.search')
+    from .c01 import prefix_tests
     branches = {}
-    for n in own_nodes(sc.node):
-        if isinstance(n, ast.If) and isinstance(n.test, ast.Compare) and \
-                isinstance(n.test.comparators[0], ast.Constant) and \
-                n.test.comparators[0].value in ('<dtml-', '</dtml-'):
-            branches[n.test.comparators[0].value] = n.body
+    for lit, node, _, _ in prefix_tests(model, sc):
+        if lit in ('<dtml-', '</dtml-'):
+            par = node
+            while par is not None and not isinstance(par, ast.If):
+                par = getattr(par, '_dt_parent', None)
+            if par is not None:
+                branches[lit] = par.body
     if set(branches) != {'<dtml-', '</dtml-'}:
         raise AnalysisError('scanner: dtml open/close branches not found')
 
@@ -274,7 +278,12 @@ def rule_scanner_twins(model):
         for st in stmts:
             s_ = norm(st)
             # prefix width and the end marker legitimately differ
-            if s_.startswith('e = n = s +') or s_.startswith('end ='):
+            if isinstance(st, ast.Assign) and isinstance(
+                    st.value, ast.BinOp) and isinstance(
+                    st.value.right, ast.Constant) and isinstance(
+                    st.value.right.value, int):
+                continue
+            if s_.startswith('end ='):
                 continue
             out.append(st)
         return out
@@ -291,6 +300,13 @@ def rule_scanner_twins(model):
     # both must be quote aware
     for k, stmts in branches.items():
         src = ' '.join(norm(x) for x in stmts)
+        # helpers of the same module the branch calls
+        for st in stmts:
+            for c in ast.walk(st):
+                if isinstance(c, ast.Call):
+                    for t in model.resolve_callee(c.func, sc):
+                        if t[0] == 'func' and t[1].module is sc.module:
+                            src += ' ' + ast.unparse(t[1].node)
         if "split('\"')" not in src:
             r.finding(sc.where, f'{k} branch', 'the end of the tag is '
                       'searched without regard to quoted attribute values',
